@@ -6,6 +6,7 @@ import shutil
 import tempfile
 import traceback
 import contextlib
+import collections
 
 from . import bootstrap
 
@@ -159,7 +160,25 @@ def build_tree(root, spec):
 
 
 def clear_caches():
-    WCP._compile.cache_clear()
+    """Clear every functools cache found in a wcmatch / bracex module (the documented one is _wcparse._compile)."""
+    n = 0
+    for name, mod in list(sys.modules.items()):
+        if mod is None or not (name == 'wcmatch' or name.startswith('wcmatch.') or name == 'bracex' or name.startswith('bracex.')):
+            continue
+        for v in list(vars(mod).values()):
+            if callable(getattr(v, 'cache_clear', None)):
+                v.cache_clear()
+                n += 1
+    return n
+
+
+_NOINFO = collections.namedtuple('CacheInfo', 'hits misses maxsize currsize')(0, 0, 0, 0)
+
+
+def cache_info():
+    """cache_info() of the documented pattern cache, or zeros when the code under test no longer exposes one."""
+    f = getattr(WCP._compile, 'cache_info', None)
+    return f() if f else _NOINFO
 
 
 def hyp():
